@@ -753,6 +753,83 @@ fn c09_unpack_mixed_layout() {
     }
 }
 
+/// unpack side, length boundary: a text / blob key whose one-byte length has its top bit set
+/// (128..=200 payload bytes — where a sign-extending read of the length goes wrong) unpacks to
+/// exactly that many bytes; a length that promises more than the key holds is an error
+#[kani::proof]
+#[kani::unwind(4)]
+#[kani::stub(alloc::fmt::format, stub_format)]
+fn c09_unpack_long_payload_length_boundary() {
+    let n: u8 = kani::any();
+    let as_text: bool = kani::any();
+    let held: usize = kani::any();
+    kani::assume(held == 127 || held == 128 || held == 129 || held == 200);
+    let mut buf = [0x41u8; 203];
+    buf[0] = 1;
+    buf[1] = (1 << 3) | (if as_text { 3 } else { 4 });
+    buf[2] = n;
+    let key = &buf[..3 + held];
+    match unpack_columns(key) {
+        Ok(cols) => {
+            assert!((n as usize) <= held, "C09-PACK: a length beyond the key's end was accepted");
+            assert!(cols.len() == 1);
+            match (cols[0].0, as_text) {
+                (ValueRef::Text(b), true) | (ValueRef::Blob(b), false) => {
+                    assert!(b.len() == n as usize, "C09-PACK: text/blob key payload length")
+                }
+                _ => {
+                    assert!(false, "C09-PACK: wrong column type")
+                }
+            }
+            kani::cover!(n >= 128, "a payload of 128 bytes or more unpacks");
+            core::mem::forget(cols);
+        }
+        Err(_) => {
+            assert!((n as usize) > held, "C09-PACK: a well-formed key with a long text/blob column does not unpack");
+        }
+    }
+}
+
+/// SyncStateV1 encoder, degenerate entries: an actor whose need list is empty and a partial
+/// version whose missing-sequence list is empty are still described by the prefixes around them
+/// (what the decoder reads back is the same maps) — concrete shape, layout checked byte by byte
+#[kani::proof]
+#[kani::unwind(10)]
+#[kani::stub(alloc::fmt::format, stub_format)]
+fn c09_state_encode_prefixes_with_empty_lists() {
+    let a1 = ActorId(Uuid::from_bytes([1; 16]));
+    let mut st = SyncStateV1 { actor_id: ActorId(Uuid::from_bytes([9; 16])), ..Default::default() };
+    st.need.insert(a1, Vec::new());
+    let mut m = HashMap::new();
+    m.insert(CrsqlDbVersion(10), Vec::new());
+    st.partial_need.insert(a1, m);
+    st.last_cleared_ts = None;
+    let bytes = match <SyncStateV1 as Writable<LE>>::write_to_vec(&st) {
+        Ok(b) => b,
+        Err(_) => {
+            assert!(false, "encode failed");
+            return;
+        }
+    };
+    let u64_at = |o: usize| -> u64 {
+        let mut v = 0u64;
+        let mut k = 0;
+        while k < 8 {
+            v |= (bytes[o + k] as u64) << (8 * k);
+            k += 1;
+        }
+        v
+    };
+    // actor 16 | heads u32 0 | need: u64 1, actor 16, u64 0 | partial: u64 1, actor 16, u64 1, version u64, u64 0 | ts 0
+    let expect_len = 16 + 4 + (8 + 16 + 8) + (8 + 16 + 8 + 8 + 8) + 1;
+    assert!(bytes.len() == expect_len, "C09-RT: an entry with an empty list is counted by its length prefix but not written (or the reverse)");
+    assert!(u64_at(20) == 1 && bytes[28] == 1 && u64_at(44) == 0, "C09-RT: need entry with an empty range list");
+    assert!(u64_at(52) == 1 && bytes[60] == 1 && u64_at(76) == 1 && u64_at(84) == 10 && u64_at(92) == 0, "C09-RT: partial entry with an empty sequence list");
+    assert!(bytes[100] == 0);
+    core::mem::forget(st);
+    core::mem::forget(bytes);
+}
+
 /// more than 255 key columns cannot be packed: error, not truncation
 #[kani::proof]
 #[kani::unwind(3)]
